@@ -29,6 +29,14 @@ def num(rng, flag=False, small=False):
     return sign + rng.choice(["0", "0.0", "24", "12.", "100000", "0.000001", "3.4028235", "16777217"])
 
 
+def mdnum(rng):
+    """a number of the converter's dialect: as num, or with a decimal exponent (fmt.Fscanf("%f") reads one)"""
+    t = num(rng)
+    if rng.below(5) == 0:
+        t += rng.choice("eE") + rng.choice(["", "", "-", "-", "+"]) + str(rng.choice([0, 1, 1, 2, 3, 5, 9, 12, 20, rng.below(21)]))
+    return t
+
+
 def join_nums(rng, toks, commas=True):
     s = toks[0]
     for prev, t in zip(toks, toks[1:]):
@@ -75,13 +83,13 @@ def md_string(rng):
     nsub = rng.range(1, 3)
     for si in range(nsub):
         v = "M" if si == 0 else rng.choice("Mm")
-        s += v + rng.choice(["", " "]) + join_nums(rng, [num(rng), num(rng)], commas=False)
+        s += v + rng.choice(["", " "]) + join_nums(rng, [mdnum(rng), mdnum(rng)], commas=False)
         for _ in range(rng.range(1, 5)):
             v = rng.choice(verbs)
             groups = rng.choice([1, 1, 2, 3])
             toks = []
             for _ in range(groups):
-                toks += [num(rng) for _ in range(ARITY[v])]
+                toks += [mdnum(rng) for _ in range(ARITY[v])]
             s += rng.choice(["", "", " "]) + v + rng.choice(["", "", " "]) + join_nums(rng, toks, commas=False)
         if si < nsub - 1 or rng.below(2):
             s += rng.choice(["z", "z", "Z"]) if si < nsub - 1 else "z"
